@@ -81,20 +81,20 @@ def get_broadcast_change_iter(modified_settings, is_cancel=False):
                                    key=lambda x: (x[0], x[1])):
         # sorted by (point, namespace)
         point, namespace, setting = modified_setting
-        value = setting
-        keys_str = ""
-        while isinstance(value, dict):
-            key, value = next(iter(value.items()))
-            if isinstance(value, dict):
-                keys_str += "[" + key + "]"
-            else:
-                keys_str += key
-                yield {
-                    "change": change,
-                    "point": point,
-                    "namespace": namespace,
-                    "key": keys_str,
-                    "value": str(value)}
+        # NOTE: a setting may hold several keys (at any level of nesting)
+        stack = [("", setting)]
+        while stack:
+            keys_str, section = stack.pop(0)
+            for key, value in section.items():
+                if isinstance(value, dict):
+                    stack.append((keys_str + "[" + key + "]", value))
+                else:
+                    yield {
+                        "change": change,
+                        "point": point,
+                        "namespace": namespace,
+                        "key": keys_str + key,
+                        "value": str(value)}
 
 
 def get_broadcast_change_report(modified_settings, is_cancel=False):
